@@ -43,6 +43,7 @@ Judge(e) ==
                                          ObservedEquals(AsC(e.c), e.dv, CommonBreaks(e.c.U, e.d.U), Deg(e.c.U) + Deg(e.d.U))>>})
     [] n = "DriverError"      -> {"operation_raised_unexpectedly"}
     [] n = "CvFitCurve"       -> FitCurveClauses(AsC(e.c), e.act.kv, e.act.nodes, AsC(e.d), e.act.err)
+    [] n = "CvFitCurve2"      -> FitCurve2Clauses(AsC(e.c), AsC(e.b), e.act.kv, e.act.nodes, AsC(e.d), AsC(e.act.d2), e.act.err)
     [] n = "CvFitPoints"      -> FitPointsClauses(e.act.kv, e.act.weights, e.act.nodes, e.act.data, AsC(e.d))
     [] n = "Rule"             -> RuleClauses(e.act.xs, e.act.ws, e.act.order)
     [] n = "KvRandom"         -> Fails({<<"random_has_witness",
